@@ -84,12 +84,16 @@ Fixpoint lzma1_read_loop (fuel : nat) (s : lzma1) (len : Z) (acc : list Z) : out
       let w := lzwin_set_limit (l_win s) copy_size_max in
       do r <- lzma_decode (l_coder s) w (l_rc s) (l_probs s);
       let '(c1, w1, status, d1, t1) := r in
+      (* rc.take_error(): a byte fetched past the end of the source (read_exact -> UnexpectedEof)
+         fails the call whatever was decoded (fix edbc5fd; before it the zeros were decoded) *)
+      if 0 <? rd_over d1 then Err E_UNEXPECTED_EOF else
       (* Err from decode: fatal unless it is the end marker of a stream of unknown size *)
       let after :=
         match status with
         | Ok _ => Ok (l_end_reached s, d1)
         | Err e =>
             if negb (l_remaining s =? U64_MAX) || negb (c_rep0 c1 =? 4294967295) then Err e
+            else if 0 <? rd_over (rdec_normalize d1) then Err E_UNEXPECTED_EOF
             else Ok (true, rdec_normalize d1)
         | Panic e => Panic e
         | Fuel => Fuel
